@@ -25,9 +25,9 @@ ENGINES = [
 
 NOTES = ("Every check: python3 run.py Cxx --tier quick|thorough. Lean theorems are rebuilt and their axioms audited on every run; "
          "the hand-written models are tied to /repo's working tree by differential runs (see DESIGN.md sections 2-3). "
-         "Genuine defects of the unchanged tree: 70 repaired by `fix:` commits in /repo (listed under `fixed` in known_findings.json; the "
+         "Genuine defects of the unchanged tree: repaired by 69 `fix:` commits in /repo (70 `fixed` entries in known_findings.json, one commit being listed under two properties; the "
          "per-check notes name only the earlier ones), 21 recorded in known_findings.json and re-observed as KNOWN-FINDING lines on every "
-         "run (C01 2, C04 4, C06 2, C08 3, C09 5, C12 2, C16 1, C19 2). 87 independently written breaking changes are kept under seeded/ "
+         "run (C01 2, C04 4, C06 2, C08 3, C09 5, C12 2, C16 1, C19 2). 97 independently written breaking changes are kept under seeded/ "
          "(DESIGN.md section 11 lists which tie catches which). tools/run_all_quick.sh runs every quick check; tools/try_patch.sh <patch> Cxx "
          "runs one check against a patched copy of /repo.")
 
